@@ -517,17 +517,34 @@ def mutate_field(rng, raw):
     return bytes(b), field
 
 
+class Stop(Exception):
+    """the monitor has failed: stop generating, report the history so far"""
+
+
+def guarded(fn):
+    def wrapper(run, model, *a, **kw):
+        box = []
+        try:
+            return fn(run, model, *a, box=box, **kw)
+        except Stop:
+            return box[0].finish()
+    return wrapper
+
+
 class History:
     """builds a history step by step against the real implementation so that the generator can aim at the current
     state; afterwards the whole op list is replayed on the model in one call"""
 
-    def __init__(self, run, model, cfg, file=None, kind='history'):
+    def __init__(self, run, model, cfg, file=None, kind='history', box=None):
         self.run, self.model, self.cfg = run, model, cfg
         self.file0 = file
         self.kind = kind
         self.ops, self.results = [], []
         self.impl = Impl(cfg, file)
         self.mon = Monitor(cfg, file)
+        self.guard = box is not None
+        if box is not None:
+            box.append(self)
 
     def do(self, op):
         res = self.impl.step(op)
@@ -551,6 +568,8 @@ class History:
         if k == 'connect':
             r = res['res']
             self.run.count('connect:' + (r.get('error') or r.get('invalid') or ('ok' if r.get('ok') else 'empty')))
+        if self.mon.bad and self.guard:
+            raise Stop()
         return res
 
     def connect(self, start, hs, io=True):
@@ -596,7 +615,8 @@ def with_genesis(cfg, chain):
     return c
 
 
-def gen_history(run, model, rng, length):
+@guarded
+def gen_history(run, model, rng, length, box=None):
     """random session(s) over a mined chain: valid extensions in random splits, forks at lower heights (shorter and
     longer than the old tail), altered headers, headers valid except for one rule, wrong start, misaligned and empty
     batches, close / cut / damage / reopen"""
@@ -606,7 +626,7 @@ def gen_history(run, model, rng, length):
     if rng.random() < 0.85:
         cfg = with_genesis(cfg, main)
         miner.cfg = cfg
-    h = History(run, model, cfg, None, 'history')
+    h = History(run, model, cfg, None, 'history', box)
     h.do({'op': 'open'})
     pos = 0                      # how much of `main` has been connected
     for _ in range(length):
@@ -625,6 +645,8 @@ def gen_history(run, model, rng, length):
             # fork at a lower height; then it becomes the main chain
             j = rng.randrange(1, max(2, min(pos, size)) + 0) if pos > 1 else 1
             j = min(j, pos)
+            if j < 1:
+                continue
             k = rng.choice([1, 1, 2, 3, max(1, pos - j - 1), pos - j + 1, pos - j + 3])
             k = max(1, k)
             fork = miner.extend(main[:j], k)
@@ -703,7 +725,8 @@ def gen_history(run, model, rng, length):
     return h.finish()
 
 
-def gen_stale_tail(run, model, rng):
+@guarded
+def gen_stale_tail(run, model, rng, box=None):
     """a fork shorter than the old tail, then the old chain's continuation offered at len(headers)"""
     cfg = easy_cfg(rng)
     miner = Miner(rng, cfg)
@@ -714,7 +737,7 @@ def gen_stale_tail(run, model, rng):
     j = rng.randrange(2, n - 2)
     k = rng.randrange(1, n - j)
     b = miner.extend(a[:j], k)
-    h = History(run, model, cfg, None, 'stale-tail')
+    h = History(run, model, cfg, None, 'stale-tail', box)
     h.do({'op': 'open'})
     h.connect(0, a[:n])
     h.connect(j, b[j:])
@@ -722,9 +745,10 @@ def gen_stale_tail(run, model, rng):
     return h.finish()
 
 
-def reopen_cases(run, model, cfg, files, kind):
+@guarded
+def reopen_cases(run, model, cfg, files, kind, box=None):
     """open() on each given file content (one model call for all of them)"""
-    h = History(run, model, cfg, None, kind)
+    h = History(run, model, cfg, None, kind, box)
     for f in files:
         h.do({'op': 'setfile', 'file': f.hex()})
         h.do({'op': 'open', 'io': len(f) < 20000})
@@ -759,7 +783,8 @@ def gen_big_reopen(run, model, rng, n, damage):
     return reopen_cases(run, model, cfg, files, 'big-reopen')
 
 
-def gen_checkpoints(run, model, rng, two):
+@guarded
+def gen_checkpoints(run, model, rng, two, box=None):
     """checkpointed chunks: open pre-allocates, chunks are fetched on demand and only stored when they hash to the
     checkpoint; then headers are connected above the horizon and the file is reopened"""
     nchunks = 2 if two else 1
@@ -767,7 +792,7 @@ def gen_checkpoints(run, model, rng, two):
     cps = [[i * CHUNK, dsha(b''.join(chain[i * CHUNK:(i + 1) * CHUNK])).hex()] for i in range(nchunks)]
     cfg = {'max_target': (1 << 255) - 1, 'genesis': dsha(chain[0]).hex(), 'vd': True, 'checkpoints': cps}
     miner = Miner(rng, cfg)
-    h = History(run, model, cfg, None, 'checkpoints')
+    h = History(run, model, cfg, None, 'checkpoints', box)
     h.do({'op': 'open', 'io': False})
     good = [b''.join(chain[i * CHUNK:(i + 1) * CHUNK]) for i in range(nchunks)]
     for i in reversed(range(nchunks)):
